@@ -198,6 +198,16 @@ func genC01(seed uint64) (*Scenario, *c01Meta) {
 			}
 			g.lastCom = g.dump("commit", 0)
 		default:
+			// sometimes the transaction that is rolled back changed the shape of a
+			// table without changing its width
+			if r.Bool(0.3) {
+				if g.cur["tv"] && r.Bool(0.6) {
+					g.lines = append(g.lines, r.PickS("ALTER TABLE tv RENAME n TO m;", "ALTER TABLE tv ADD c DEFAULT 1; ALTER TABLE tv DROP n;", "ALTER TABLE tv RENAME id TO n2; UPDATE tv SET n = n + 1;"))
+				} else {
+					t := []string{"t0", "t1"}[r.Intn(2)]
+					g.lines = append(g.lines, fmt.Sprintf("ALTER TABLE %s RENAME s TO z;", t))
+				}
+			}
 			g.lines = append(g.lines, "ROLLBACK;")
 			g.cur = map[string]bool{}
 			for k2, v := range g.com {
